@@ -21,6 +21,7 @@ type lifeResult struct {
 	cleanup                 string // failed instance left in the list
 	restart                 string // Restart trace mismatches
 	afterUp                 string // Restart fails/returns old instance after the new one is up
+	wg                      string // the new instance does not share the old one's wait group
 	shut                    string // ShutdownCallbacks mismatches
 	other                   string // not evaluated at all
 	oStart, oRestart, oShut string // undecided cases per function
@@ -235,6 +236,11 @@ func lifecycleTraces(h H) *lifeResult {
 				}
 				if p, ok := args[1].(aptr); ok {
 					newInst = p.obj
+					ow, ok1 := env.load(old, "wg").(aptr)
+					nw, ok2 := env.load(newInst, "wg").(aptr)
+					if (!ok1 || !ok2 || ow.obj != nw.obj) && res.wg == "" {
+						res.wg = fmt.Sprintf("Restart, failing step=%q: the instance being started has wait group %s, the old instance %s", fail, describeAval(env.load(newInst, "wg")), describeAval(env.load(old, "wg")))
+					}
 				}
 				return outcome("startnew"), true
 			case callee == "invoke:Stop":
